@@ -420,6 +420,17 @@ void sim_step(void)
     if (++R.op_steps > R.step_budget && R.in_run) sim_fail("LIVELOCK", "more than %llu simulated calls in one operation", (unsigned long long)R.step_budget);
 }
 
+/* the allocator is environment, too: a stretch of work that keeps allocating is making progress as far as the CPU watchdog is concerned
+   (a 1000-deep nest of built-in calls in a file that includes itself 255 times allocates two 20 kB buffers half a million times and makes
+   hardly any other call), and has a budget of its own -- a count, so the verdict does not depend on the machine */
+void sim_alloc_step(void)
+{
+    if (!R.in_run) return;
+    if (R.cur_op_index != R.alloc_op_mark) { R.alloc_op_mark = R.cur_op_index; R.op_alloc_steps = 0; }
+    if ((++R.alloc_steps & 65535) == 0) arm_watchdog(20);
+    if (++R.op_alloc_steps > 60000000ULL) sim_fail("LIVELOCK", "more than 60 million allocator calls in one operation");
+}
+
 static const char *signame(int s)
 {
     switch (s) { case SIGSEGV: return "SIGSEGV"; case SIGBUS: return "SIGBUS"; case SIGFPE: return "SIGFPE";
@@ -504,7 +515,7 @@ static void run_plan(const engine_t *e, plan_t *p)
     R.cur_op = NULL;
     R.cur_op_index = -1;
     R.trace_hash = 0xcbf29ce484222325ULL;
-    R.steps = R.op_steps = 0;
+    R.steps = R.op_steps = 0; R.alloc_steps = R.op_alloc_steps = 0; R.alloc_op_mark = -2;
     R.step_budget = (uint64_t)plan_get(p, "budget", 20000);
     R.clock_us = 0;
     arm_watchdog(20);
